@@ -28,15 +28,26 @@ LEVEL_TEXT = ("Lean theorems over Model/Transfer.lean (DataServer.recv_loop / ma
               "shm never held the dataset - nothing of it is stored, announced, sent or held there again; the shm purge is issued with no "
               "future of that dataset in progress, and EVERY job that was in flight when the message loop reached the purge - any number of "
               "them (a replicated dataset: several sends and stores of it at once), of any dataset, at any stage - has come to its end before "
-              "the purge request (c07_purge_waits_every_job, _tick); a due unconfirmed transfer is re-submitted by the next iteration, per index (independent "
-              "of other confirmations), never after its ack or the purge; every DatasetTransmitFailure raised is forwarded to the controller "
-              "exactly once; the executor forwards a purge iff the dataset is in Executor.datasets, which holds iff its last action about it "
-              "was the announcement. Existence half of 'exactly one copy' as progress theorems from quiescent hosts (_partial): a payload "
+              "the purge request (c07_purge_waits_every_job, _tick) - this rests on the purge arm's `wait` being the blocking call "
+              "wait(all futures, ALL_COMPLETED) WITHOUT timeout: the call's arguments are read from data_server.py by a translator "
+              "(Gen/DataServerWait.lean), checked by `decide` (c07_wait_calls_as_modelled), are an explicit hypothesis of "
+              "c07_purge_arm_waits_every_job, and cannot be dropped (c07_purge_arm_waits_full_fails: after a wait that timed out the shm purge "
+              "is issued with a send job's read buffer open); a due unconfirmed transfer (grace period passed, no ack read, dataset not "
+              "purged) is re-submitted by the next iteration IF that iteration has nothing to read (socket and inbox empty: a timer "
+              "iteration) - in every reachable state, hence after any number of earlier retries (no retry budget), per index (independent of "
+              "other confirmations); for iterations that also read messages this clause is carried by the tie and the oracle only; never a "
+              "re-send after its ack or the purge; every DatasetTransmitFailure raised is forwarded to the controller exactly once; with "
+              "nothing else on its socket the executor forwards a purge if the dataset is in Executor.datasets (c07_exec_purge_filter) and "
+              "drops it if it is not (c07_exec_purge_dropped), and a purge queued right behind the dataset's own announcement is forwarded "
+              "(c07_exec_purge_behind_announcement); a payload of a purged dataset handed to the message loop is dropped with no store job "
+              "submitted, after any continuation of the history (c07_late_payload_discarded); once the executor has acted on a dataset, it is in Executor.datasets exactly "
+              "when its last action was to pass on the announcement. Existence half of 'exactly one copy' as progress theorems from quiescent hosts (_partial): a payload "
               "frame that gets through is stored with the payload's bytes, announced with its index and acked; an overdue transfer completes "
               "in five steps once one copy of payload and ack get through; a forwarded purge is executed by the data server's next iteration "
               "whatever its pool is doing (purge end-to-end, _partial under 'dataset in Executor.datasets', _full_fails: a purge the executor "
-              "drops lets a later payload in). Unbounded in history length, hosts, datasets; tied to the real code by an op-by-op correspondence "
-              "check that runs the real shm client, server dispatch, Manager and segments.")
+              "drops lets a later payload in). The Lean statements are unbounded in history length, hosts, datasets; the tie (an op-by-op "
+              "correspondence check that runs the real shm client, server dispatch, Manager and segments) SAMPLES: 2-3 hosts, 1-3 datasets "
+              "(10-40 in the many-purges family), histories of 8-60 ops (8-120 thorough) plus drain, up to ~300 ops in the long-loss family.")
 LEVEL_NOTE = ("modelled, not verified: data_server.py DataServer (recv_loop, maybe_clean, send_payload, store_payload), comms.py Listener._recv_one/"
               "recv_messages + send_data/callback framing, executor.py Executor.recv_loop (DatasetPublished / DatasetTransmitFailure / DatasetPurge "
               "branches), the allocate/get/purge/close contract of shm/client.py + dataset.Manager (no paging: capacity is never reached in the "
@@ -46,10 +57,21 @@ LEVEL_NOTE = ("modelled, not verified: data_server.py DataServer (recv_loop, may
               "theorem: the announcement's transmit_idx equals the stored payload's (announcement-wrong), Bridge issues each transmit index once "
               "(transmit-idx-reused). c07_purge_waits has content at the operation level only (the micro step of the purge branch carries the "
               "blocking wait as a guard); c07_failures_forwarded and c07_exec_purge_filter(b) relate independently defined events through the "
-              "executor's socket")
+              "executor's socket. BOUNDS OF THE TIE: 2-3 hosts; 1-3 datasets, except the many-purges family (10-40 datasets, 9-40 purges at one "
+              "host, then late payloads for the datasets purged first: DataServer.invalid must never forget; ~5 of 200 quick cases); 8-60 ops "
+              "per history quick (8-120 thorough) + drain, except the long-loss family (25-60 loss rounds of payload or ack on ONE transfer "
+              "index, one retry per round, ~100-300 ops; 2 of 200 quick cases): a behaviour that needs more than 40 purges at one host or more "
+              "than 60 retries of one index is outside the tie; values are 1-4 bytes except the big-values family (64 KiB-1 MiB, ~3 of 200 "
+              "quick cases). The fake `wait` honours `timeout` (a job that has not finished is returned as not_done: jobs take longer than any "
+              "timeout) and return_when; the listeners are real Listener objects (__init__ over a fake zmq context/poller); `ignored` "
+              "(payload of a purged dataset discarded) and `purgeDropped` are observed at the listeners (payload handed to the loop and no "
+              "store job submitted / purge handed to the executor and nothing forwarded) and compared with the model's events; the executor "
+              "shells have no workers (a send to a worker socket is reported); 'a fetch delivers to the controller' is observed at a real "
+              "Listener standing for the controller's (Bridge.recv_events is C06's)")
 TECHNIQUE = ("Lean 4 proof: inductive invariant (13 conjuncts) over all interleavings of micro steps (main loop, pool-job stages with faults, "
              "executor, lossy/duplicating network), refinement of the recv_loop iteration to micro steps, symbolic evaluation for the progress "
-             "theorems, index-based induction over the pool's wait for the every-job theorem + differential correspondence with real DataServer / Executor shells over the real shm stack + property oracle")
+             "theorems, index-based induction over the pool's wait for the every-job theorem, translator for the arguments of the two "
+             "concurrent.futures.wait calls (side condition by decide) + differential correspondence with real DataServer / Executor shells over the real shm stack + property oracle")
 LEAN_PROPS = ["EkwVerif.Props.C07"]
 LEAN_DRIVERS = ["C07"]
 RULE = ("random histories over 2-3 hosts and 1-3 datasets, commands built by the real Bridge.transmit/fetch: transfer and fetch commands (delivered "
@@ -63,13 +85,22 @@ RULE = ("random histories over 2-3 hosts and 1-3 datasets, commands built by the
         "REPLICATED dataset: 2-3 jobs of one dataset - sends to different targets / the controller, stores of redundant payloads from two "
         "sources, a send next to a store - in flight on one host when its purge is handled, i.e. commands, payload frames and the purge in one "
         "recv_messages batch or one job carried over with its read open, the scheduler oracle deciding which job the pool finishes first); followed "
-        "by a loss-free drain. non-trivial = history with >=1 transfer and at least one drop, duplicate or purge; distinct by content hash")
+        "by a loss-free drain. Three directed families at fixed positions of every run: many-purges (case index = 3 mod 40: 10-40 "
+        "datasets on host 1, 2-4 EARLY datasets transferred once or twice - own index each - to one target, some stored, announced and "
+        "published there first; then 9-40 purges at the target, the early ones among the first, in batches of 1-6 per recv_messages, through "
+        "the executor when published, else directly; then the late payloads of the early datasets), long-loss (index = 7 mod 100: one "
+        "transfer or fetch whose payload - or whose confirmation, the payload being delivered every time - is lost in 25-60 consecutive "
+        "rounds of drop / clock past the grace / timer iteration / send job, a second transfer of the same source confirmed meanwhile), "
+        "big-values (index = 11 mod 70: 2 hosts, dataset 0 of 64 KiB, 64 KiB+1, 128 KiB, 256 KiB or 1 MiB, block-numbered contents, 6-10 "
+        "ops). non-trivial = history with >=1 transfer and at least one drop, duplicate or purge; distinct by content hash")
 ASSUMPTIONS = [
     "zmq sockets/poller, the UDP socket between shm client and shm server, the thread pool and time_ns are replaced by in-process fakes; the "
     "stages of a pool job are atomic (boundaries: allocate granted, writer closed, get granted)",
     "the shm store is the REAL one (client, api codec, LocalServer dispatch, Manager, POSIX segments); no other process uses it: a worker "
     "reading a dataset while the data server purges it (Manager.delayed_purge) and paging are outside the model (C08/C09)",
     "a fault is one-shot and hits one stage of one job; the failure report itself gets through",
+    "a `wait` WITH a timeout (none in the source; the check honours one if a change adds it) returns with every job that had not "
+    "finished before the call in not_done: pool jobs may take longer than any finite timeout (large datasets, shm under pressure)",
     "a command reaches its source data server exactly once and a purge its executor exactly once (C06); command indices come from the real "
     "Bridge counter (checked by the oracle: transmit-idx-reused)",
     "all initial copies of a dataset carry the same bytes and deser_fun; serialised datasets are non-empty (a zero-length dataset cannot be "
@@ -78,6 +109,106 @@ ASSUMPTIONS = [
 ]
 
 GRACE_MS = 4000
+# witnesses of `_full_fails` theorems: they must be there and must load
+REQUIRED_CORPUS = ("C07_dropped_purge_then_stored.json", "C07_timed_wait_purges_early.json")
+
+
+# ----------------------------------------------------------------------------- translator
+
+def scan_waits(repo):
+    """The two `concurrent.futures.wait` calls of DataServer, read from the source: what is waited for, `return_when`
+    and `timeout`.  The purge branch is the `isinstance(m, DatasetPurge)` arm of the message loop in `recv_loop`;
+    the other call is the one of `maybe_clean`.  Raises when the source no longer has this shape."""
+    import ast
+    from pathlib import Path
+    src = (Path(repo) / "src" / "cascade" / "executor" / "data_server.py").read_text()
+    tree = ast.parse(src)
+    cls = next(n for n in tree.body if isinstance(n, ast.ClassDef) and n.name == "DataServer")
+    fns = {n.name: n for n in cls.body if isinstance(n, ast.FunctionDef)}
+
+    def wait_calls(node):
+        return [c for c in ast.walk(node) if isinstance(c, ast.Call) and
+                ((isinstance(c.func, ast.Name) and c.func.id == "wait") or (isinstance(c.func, ast.Attribute) and c.func.attr == "wait"))]
+
+    def describe(c):
+        kw = {k.arg: k.value for k in c.keywords}
+        pos = list(c.args)
+        over = pos[0] if pos else kw.get("fs")
+        timeout = pos[1] if len(pos) > 1 else kw.get("timeout")
+        rw = pos[2] if len(pos) > 2 else kw.get("return_when")
+        if timeout is None or (isinstance(timeout, ast.Constant) and timeout.value is None):
+            t_ms = None
+        elif isinstance(timeout, ast.Constant) and isinstance(timeout.value, (int, float)):
+            t_ms = int(timeout.value * 1000)
+        else:
+            t_ms = -1                      # some expression: a timeout of unknown length
+        if rw is None:
+            rws = "ALL_COMPLETED"          # the default of concurrent.futures.wait
+        else:
+            rws = rw.id if isinstance(rw, ast.Name) else rw.attr if isinstance(rw, ast.Attribute) else ast.unparse(rw)
+        return {"over": ast.unparse(over) if over is not None else "", "timeout_ms": t_ms, "return_when": rws, "line": c.lineno}
+
+    purge_arm = None
+    for n in ast.walk(fns["recv_loop"]):
+        if isinstance(n, ast.If) and isinstance(n.test, ast.Call) and getattr(n.test.func, "id", "") == "isinstance" \
+                and len(n.test.args) == 2 and getattr(n.test.args[1], "id", "") == "DatasetPurge":
+            purge_arm = n
+    if purge_arm is None:
+        raise ValueError("no `isinstance(m, DatasetPurge)` arm in DataServer.recv_loop")
+    body = ast.Module(body=purge_arm.body, type_ignores=[])
+    pw = wait_calls(body)
+    # the wait must come BEFORE the shm purge of that arm
+    purge_line = min((c.lineno for c in ast.walk(body) if isinstance(c, ast.Call) and isinstance(c.func, ast.Attribute)
+                      and c.func.attr == "purge"), default=None)
+    if purge_line is None:
+        raise ValueError("no shm purge call in the purge arm of DataServer.recv_loop")
+    pw = [c for c in pw if c.lineno < purge_line]
+    cw = wait_calls(fns["maybe_clean"])
+    if len(cw) != 1:
+        raise ValueError(f"expected one wait() call in DataServer.maybe_clean, found {len(cw)}")
+    # no wait at all before the purge = a wait that returns at once
+    purge = describe(pw[-1]) if pw else {"over": "", "timeout_ms": 0, "return_when": "NONE", "line": purge_line}
+    purge["n_calls"] = len(pw)
+    return {"purge": purge, "clean": describe(cw[0])}
+
+
+def render_gen(t):
+    def opt(v):
+        return "none" if v is None else "some %d" % max(v, 0)
+    p, c = t["purge"], t["clean"]
+    return f'''/- GENERATED by harness/ekw/props/c07.py::translate from src/cascade/executor/data_server.py — do not edit.
+   How DataServer calls `concurrent.futures.wait`: in the purge arm of `recv_loop` (before the shm purge) and in
+   `maybe_clean`. -/
+namespace EkwVerif.Gen.DataServerWait
+
+/-- purge arm: the first argument of `wait(...)` as written -/
+def purgeWaitOver : String := {json.dumps(p["over"])}
+/-- purge arm: `return_when` -/
+def purgeWaitReturnWhen : String := {json.dumps(p["return_when"])}
+/-- purge arm: `timeout` in ms (`none` = no timeout: the call blocks) -/
+def purgeWaitTimeoutMs : Option Nat := {opt(p["timeout_ms"])}
+/-- maybe_clean: the first argument of `wait(...)` -/
+def cleanWaitOver : String := {json.dumps(c["over"])}
+/-- maybe_clean: `return_when` -/
+def cleanWaitReturnWhen : String := {json.dumps(c["return_when"])}
+/-- maybe_clean: `timeout` in ms -/
+def cleanWaitTimeoutMs : Option Nat := {opt(c["timeout_ms"])}
+
+end EkwVerif.Gen.DataServerWait
+'''
+
+
+def translate(ctx):
+    from ekw import core
+    t = scan_waits(core.REPO)
+    text = render_gen(t)
+    path = core.LEAN_DIR / "EkwVerif" / "Gen" / "DataServerWait.lean"
+    path.parent.mkdir(exist_ok=True)
+    if not path.exists() or path.read_text() != text:
+        path.write_text(text)
+    ctx.extra["data_server_wait_calls"] = t
+    for k in ("purge", "clean"):
+        ctx.count("table:wait:%s:%s:timeout_ms=%s:over=%s" % (k, t[k]["return_when"], t[k]["timeout_ms"], t[k]["over"]))
 
 
 # ----------------------------------------------------------------------------- generator
@@ -222,21 +353,166 @@ def _open_replicated(rng, w, case, nds, emit, holders, cmd, frame_of):
     case.setdefault("opening", "replicated-purge:" + kind)
 
 
-def gen_case(rng, nops, with_run=False):
+BIG_SIZES = (65536, 65537, 131072, 262144, 1048576)
+
+
+def _big_value(rng, size):
+    """`size` bytes that differ from block to block (a copy that loses, repeats or reorders a block is seen)"""
+    seed = rng.randrange(256)
+    blk = bytes((seed + 7 * i) % 256 for i in range(251))
+    out = bytearray()
+    k = 0
+    while len(out) < size:
+        out += bytes([k % 256]) + blk
+        k += 1
+    return bytes(out[:size]).hex()
+
+
+def _open_many_purges(rng, w, case, nds, emit, holders, cmd, frame_of):
+    """MANY datasets (10-40) and purges of many of them at one host, then LATE payloads for the ones purged FIRST:
+    `DataServer.invalid` must remember every purge, however many followed ('once purged ... nothing of it is stored
+    there again' has no horizon).  Some of the early datasets were stored, announced and published at the target
+    before (purge through the executor), the others are overtaken by the purge (direct purge); the late payload is
+    a redundant transfer (own index: the listener's Syn de-duplication does not catch it)."""
+    src = 1
+    tgt = rng.choice([h for h in w.hosts if h != src])
+    early = rng.sample(range(nds), rng.randint(2, 4))
+    cs = []
+    stored_first = {}
+    for d in early:
+        c = [cmd(d, src, tgt)]
+        if rng.random() < 0.6:
+            c.append(cmd(d, src, tgt))                 # redundant transfer of the same dataset, own index
+        if len(c) == 2 and rng.random() < 0.6:
+            stored_first[d] = c[0]["idx"]
+        cs += c
+    rng.shuffle(cs)
+    while cs:
+        k = rng.randint(1, 3)
+        emit({"op": "tick", "h": src, "inputs": cs[:k], "sched": _sched(rng)})
+        cs = cs[k:]
+        while w.pools[src].jobs:
+            emit({"op": "job", "h": src, "c": 0})
+    for d, ix in stored_first.items():
+        i = frame_of(ix)
+        if i is None:
+            continue
+        emit({"op": "tick", "h": tgt, "inputs": [{"k": "frame", "i": i, "dup": False}], "sched": []})
+        while w.pools[tgt].jobs:
+            emit({"op": "job", "h": tgt, "c": 0})
+        emit({"op": "etick", "h": tgt, "purges": []})
+    others = [d for d in range(nds) if d not in early]
+    rng.shuffle(others)
+    others = others[:rng.randint(min(len(others), 9), len(others))]
+    order = list(early)
+    rng.shuffle(order)
+    k = rng.randint(0, min(2, len(others)))
+    order = others[:k] + order + others[k:]         # the early ones are among the first purges
+    while order:
+        k = rng.randint(1, 6)
+        batch, order = order[:k], order[k:]
+        via_exec = [d for d in batch if w.dsid(d) in w.exe[tgt].datasets and rng.random() < 0.8]
+        direct = [d for d in batch if d not in via_exec]
+        if via_exec:
+            emit({"op": "etick", "h": tgt, "purges": via_exec})
+        emit({"op": "tick", "h": tgt, "inputs": [{"k": "purge", "ds": d} for d in direct], "sched": _sched(rng)})
+        if rng.random() < 0.2:
+            emit({"op": "adv", "d": rng.choice([300, 2500, 4001])})
+    # the late payloads of the early datasets
+    a = w.aname(tgt)
+    while True:
+        pos = [i for i, f in enumerate(w.net) if f[0] == a and len(f[1]) == 3 and w.frame_json(f)["p"]["ds"] in early]
+        if not pos:
+            break
+        emit({"op": "tick", "h": tgt, "inputs": [{"k": "frame", "i": rng.choice(pos), "dup": False}], "sched": _sched(rng)})
+        if rng.random() < 0.7:
+            while w.pools[tgt].jobs:
+                emit({"op": "job", "h": tgt, "c": 0})
+    case["opening"] = "many-purges-then-late-payloads"
+
+
+def _open_long_loss(rng, w, case, nds, emit, holders, cmd, frame_of):
+    """25-60 LOSS ROUNDS on ONE transfer index: the payload (or, second variant, its confirmation) is lost again and
+    again; every round the source must re-send once the grace period has passed - 'retried until confirmed' has no
+    retry budget.  A second transfer of the same source is confirmed meanwhile (per-index independence)."""
+    hs0 = holders(0)
+    if not hs0:
+        return
+    src = rng.choice(hs0)
+    others = [h for h in w.hosts if h != src]
+    variant = "payload" if rng.random() < 0.65 else "ack"
+    tgt = rng.choice(others + [0]) if variant == "payload" else rng.choice(others)
+    c0 = cmd(0, src, tgt)
+    ins = [c0]
+    c1 = None
+    if rng.random() < 0.5:
+        c1 = cmd(0, src, rng.choice(others + [0]))
+        ins.insert(rng.randint(0, 1), c1)
+    emit({"op": "tick", "h": src, "inputs": ins, "sched": _sched(rng)})
+    while w.pools[src].jobs:
+        emit({"op": "job", "h": src, "c": 0})
+    rounds = rng.randint(25, 60) if variant == "payload" else rng.randint(25, 40)
+    for r in range(rounds):
+        i = frame_of(c0["idx"])
+        if i is not None:
+            if variant == "payload" or tgt == 0:
+                emit({"op": "drop", "i": i})
+            else:
+                emit({"op": "tick", "h": tgt, "inputs": [{"k": "frame", "i": i, "dup": False}], "sched": []})
+                while w.pools[tgt].jobs:
+                    emit({"op": "job", "h": tgt, "c": 0})
+                acks = [j for j, fr in enumerate(w.net) if fr[0] == w.aname(src) and len(fr[1]) == 1
+                        and w.frame_json(fr)["m"].get("idx") == c0["idx"]]
+                for j in reversed(acks):
+                    emit({"op": "drop", "i": j})
+        if c1 is not None and r == 2:
+            # the other transfer gets through and is confirmed
+            i = frame_of(c1["idx"])
+            if i is not None:
+                if c1["target"] == 0:
+                    emit({"op": "ctrl", "i": i, "dup": False})
+                else:
+                    emit({"op": "tick", "h": c1["target"], "inputs": [{"k": "frame", "i": i, "dup": False}], "sched": []})
+                    while w.pools[c1["target"]].jobs:
+                        emit({"op": "job", "h": c1["target"], "c": 0})
+                acks = [j for j, fr in enumerate(w.net) if fr[0] == w.aname(src) and len(fr[1]) == 1
+                        and w.frame_json(fr)["m"].get("idx") == c1["idx"]]
+                if acks:
+                    emit({"op": "tick", "h": src, "inputs": [{"k": "frame", "i": acks[0], "dup": False}], "sched": []})
+        emit({"op": "adv", "d": rng.choice([4001, 4001, 4500, 6000, 9000])})
+        emit({"op": "tick", "h": src, "inputs": [], "sched": _sched(rng)})
+        while w.pools[src].jobs:
+            emit({"op": "job", "h": src, "c": 0})
+    case["opening"] = "long-loss:%s" % variant
+    case["loss_rounds"] = rounds
+
+
+FAMILIES = {"many-purges": _open_many_purges, "long-loss": _open_long_loss}
+
+
+def gen_case(rng, nops, with_run=False, family=None):
     from ekw.sim_c07 import World
-    n = rng.randint(2, 3)
-    nds = rng.randint(1, 3)
+    n = 2 if family == "big-values" else rng.randint(2, 3)
+    nds = rng.randint(10, 40) if family == "many-purges" else rng.randint(1, 2) if family == "big-values" else rng.randint(1, 3)
     stores = []
     for d in range(nds):
-        val = bytes([rng.randrange(256) for _ in range(rng.randint(1, 4))]).hex()
-        hs = rng.sample(range(1, n + 1), 1 if rng.random() < 0.75 else 2)
+        if family == "big-values" and d == 0:
+            val = _big_value(rng, rng.choice(BIG_SIZES[:4]) if rng.random() < 0.85 else BIG_SIZES[4])
+        else:
+            val = bytes([rng.randrange(256) for _ in range(rng.randint(1, 4))]).hex()
+        if family == "many-purges":
+            hs = [1] if rng.random() < 0.8 else [1, rng.randint(2, n)]
+        else:
+            hs = rng.sample(range(1, n + 1), 1 if rng.random() < 0.75 else 2)
         for h in sorted(hs):
             stores.append([h, d, val, "df%d" % d])
     case = {"n": n, "stores": stores, "ops": []}
+    if family:
+        case["family"] = family
     w = World(n, stores)
     outs = []
     try:
-        _gen_ops(rng, nops, w, case, nds, outs)
+        _gen_ops(rng, nops, w, case, nds, outs, family)
         if not with_run:
             return case
         # the generating run IS the real run of the case: go on with the drain on the same world
@@ -253,7 +529,7 @@ def gen_case(rng, nops, with_run=False):
     return case, ops, outs, w
 
 
-def _gen_ops(rng, nops, w, case, nds, outs):
+def _gen_ops(rng, nops, w, case, nds, outs, family=None):
     ops = case["ops"]
     undelivered = []
     faulty = rng.random() < 0.35          # histories with shm / socket faults
@@ -300,7 +576,10 @@ def _gen_ops(rng, nops, w, case, nds, outs):
     # ---- directed openings (structured, all inputs valid): the situations the property text names
     x = rng.random()
     hs0 = holders(0)
-    if x < 0.10 and hs0:
+    if family in FAMILIES:
+        FAMILIES[family](rng, w, case, nds, emit, holders, cmd, frame_of)
+        nops = len(ops) + rng.randint(0, 12)
+    elif x < 0.10 and hs0:
         # a LATER transfer of the same source is confirmed while the payload of an EARLIER one was lost
         src = rng.choice(hs0)
         others = [h for h in w.hosts if h != src]
@@ -513,7 +792,7 @@ def drain(w, emit, rounds=8):
 def run_case(case, with_drain=True):
     """Run on the real code. Returns (all ops incl. drain, outputs, world)."""
     from ekw.sim_c07 import World
-    w = World(case["n"], case["stores"], case.get("published"))
+    w = World(case["n"], case["stores"], case.get("published"), force_wait_timeout=case.get("force_wait_timeout"))
     ops, outs = [], []
 
     def emit(op):
@@ -560,6 +839,7 @@ def oracle(case, w):
     submitted_in_op = set()
     retries_in_op = []
     sock_before = []
+    late = {}                 # (h, idx) -> (ds, op): payload of a dataset purged on h handed to the message loop
 
     def close_due():
         nonlocal due
@@ -627,12 +907,21 @@ def oracle(case, w):
                 fwd = [x for x in w.observations if x["kind"] == "purge-forwarded" and x["op"] == o["op"] and x["h"] == h and x["ds"] == o["ds"]]
                 if not fwd:
                     fails.append(("purge-not-forwarded", f"op {o['op']}: the executor of host {h} did not hand the purge of dataset {o['ds']} (which it had seen published) to its data server"))
+        elif k == "payload-read":
+            if (h, o["ds"]) in purged:
+                late[(h, o["idx"])] = (o["ds"], o["op"])
+        elif k == "payload-ignored":
+            late.pop((h, o["idx"]), None)
         elif k == "fault":
-            faults.append((o["op"], h, o["what"]))
+            faults.append((o["op"], h, o["what"], o.get("ds"), o.get("job")))
         elif k == "failure":
             n_fail_pushed[h] += 1
-            fault_here = any(fo == o["op"] and fh == h for fo, fh, _ in faults) or \
-                (o.get("src") == "future" and any(fh == h and fw == "close-reader" and fo <= o["op"] for fo, fh, fw in faults))
+            # a failure report is excused by a fault injected into THAT job (same op, host, dataset, kind of job), or -
+            # reported by maybe_clean - by an earlier close-reader fault of a send of that dataset on that host
+            jname = {"send": "send_payload", "store": "store_payload"}.get(o.get("src"))
+            fault_here = any(fo == o["op"] and fh == h and fds == o.get("ds") and fj == jname for fo, fh, _, fds, fj in faults) or \
+                (o.get("src") == "future" and any(fh == h and fw == "close-reader" and fo <= o["op"] and fds == o.get("ds")
+                                                  for fo, fh, fw, fds, fj in faults))
             c = next((c for hh, c in cmds if hh == h and c["idx"] == o.get("idx")), None) if o.get("src") == "send" else None
             legit = o.get("src") == "send" and c is not None and \
                 (c["source"] != h or c["target"] == h or (h, c["ds"]) not in has)
@@ -656,6 +945,11 @@ def oracle(case, w):
                 if (h, s_["idx"]) in acked:
                     fails.append(("retry-after-ack", f"op {s_['op']}: host {h} re-sent transfer {s_['idx']} although its confirmation had been received"))
             retries_in_op = []
+            # 'payloads arriving after a purge are discarded': the loop took no action on them (no store job)
+            for (hh, ix), (d_, op_) in sorted(late.items()):
+                if hh == h and not w.crashed[h]:
+                    fails.append(("late-payload-not-discarded", f"op {op_}: host {h} had purged dataset {d_}; the payload of transfer {ix} arriving afterwards was not discarded (a store job was submitted)"))
+            late = {kk: v for kk, v in late.items() if kk[0] != h}
         elif k == "cmd":
             cmds.append((h, o["c"]))
             i = o["c"]["idx"]
@@ -689,7 +983,12 @@ def oracle(case, w):
         elif k == "crashed":
             if due is not None:
                 due[3][0] = True
-            if o["why"] not in (1, 2):
+            # the two deliberate refusals of the loop are the controller's fault and outside the property ONLY when their
+            # condition really holds on what was observed: a command for a dataset this host has purged (2), an index
+            # this host was handed twice (1); anything else that ends the loop is a violation
+            excused = (o["why"] == 2 and any(hh == h and (h, c["ds"]) in purged for hh, c in cmds)) or \
+                      (o["why"] == 1 and any(sum(1 for hh, c in cmds if hh == h and c["idx"] == c0["idx"]) > 1 for h0, c0 in cmds if h0 == h))
+            if not excused:
                 fails.append(("data-server-died", f"op {o['op']}: recv_loop of host {h} raised {o['what']}"))
     close_due()
     drained = getattr(w, "drained", True)
@@ -700,7 +999,7 @@ def oracle(case, w):
     # every injected fault is reported: by the job it hit (same op) or, when the exception escaped into the
     # Future, by the next maybe_clean of that data server
     fobs = [[o["op"], o["h"], o.get("src"), False] for o in w.observations if o["kind"] == "failure"]
-    for op, h, what in faults:
+    for op, h, what, _ds, _job in faults:
         if what == "close-reader":
             m = next((x for x in fobs if x[1] == h and not x[3] and x[2] == "future" and x[0] >= op), None)
         else:
@@ -848,6 +1147,36 @@ def _stats(ctx, case, ops, w):
                    ("failure", "transmit_failures"), ("ctrl-published", "announcements_forwarded"), ("ctrl-failure", "failures_forwarded")):
         if kinds.get(k):
             ctx.count(key, kinds[k])
+    nds = len({e[1] for e in case["stores"]})
+    ctx.count("datasets:%s" % (nds if nds <= 3 else "10-19" if nds < 20 else "20-29" if nds < 30 else "30-40"))
+    big = max(len(e[2]) // 2 for e in case["stores"])
+    if big >= 65536:
+        ctx.count("value_bytes:%s" % ("64KiB-256KiB" if big <= 262144 else "1MiB"))
+    if case.get("loss_rounds"):
+        ctx.count("loss_rounds:%s" % ("25-39" if case["loss_rounds"] < 40 else "40-60"))
+    npur = {}
+    for o in w.observations:
+        if o["kind"] == "shm-purge" and o["op"] < w.drain_from:
+            npur[o["h"]] = npur.get(o["h"], 0) + 1
+        elif o["kind"] == "payload-ignored":
+            ctx.count("payloads_ignored_after_purge")
+            if npur.get(o["h"], 0) > 8:
+                ctx.count("payloads_ignored_after_more_than_8_purges")
+        elif o["kind"] == "purge-dropped" and o["op"] < w.drain_from:
+            pass
+    if npur:
+        m = max(npur.values())
+        ctx.count("purges_at_one_host:%s" % (m if m <= 3 else "4-8" if m <= 8 else "9-19" if m < 20 else "20-40"))
+    rmax = {}
+    for o in w.observations:
+        if o["kind"] == "submit-send" and o["retry"]:
+            rmax[(o["h"], o["idx"])] = rmax.get((o["h"], o["idx"]), 0) + 1
+    if rmax:
+        m = max(rmax.values())
+        ctx.count("retries_of_one_index:%s" % (m if m <= 3 else "4-19" if m < 20 else "20-24" if m < 25 else "25-60"))
+    for wt in w.waits:
+        if wt["op"] < w.drain_from:
+            ctx.count("wait:%s:timeout=%s:%s" % (wt["return_when"], wt["timeout"], "all-futures" if wt["all"] else "some-futures"))
     for o in case["ops"]:
         ctx.count("op:" + o["op"])
         if o["op"] == "tick" and len(o["inputs"]) > 1:
@@ -872,20 +1201,33 @@ def _compare(ctx, runs):
                 break
 
 
-def correspond(ctx):
+def oracle_only(ctx):
+    """The model does not build (e.g. the table read from the source refutes a side condition proved by `decide`): the
+    real side and the property oracle still run on the same inputs, so that a failing input is named."""
+    correspond(ctx, compare=False)
+
+
+def correspond(ctx, compare=True):
     from ekw.core import CORPUS_DIR
     n = ctx.budget(200, 2500)
     maxops = ctx.budget(60, 120)
     cases = []
     expects = {}
+    found = set()
     for f in sorted(glob.glob(str(CORPUS_DIR / "C07_*.json"))):
         try:
             j = json.load(open(f))
             if j.get("expect"):
                 expects[len(cases)] = (j.get("witness_of"), j["expect"])
             cases.append(j["case"])
-        except Exception:
-            pass
+            found.add(f.rsplit("/", 1)[-1])
+        except Exception as e:
+            # a corpus file that does not load is a failure of the harness, not something to skip: the witness of a
+            # `_full_fails` theorem would silently stop being replayed
+            ctx.disagree("harness:corpus", {"file": f}, "corpus file loads", f"{type(e).__name__}: {e}"[:300])
+    for need in REQUIRED_CORPUS:
+        if need not in found:
+            ctx.disagree("harness:corpus", {"file": need}, "the witness file is present and loads", "missing")
     ncorpus = len(cases)
     runs = []
     reported = set()
@@ -896,7 +1238,11 @@ def correspond(ctx):
                 case = cases[k]
                 ops, outs, w = run_case(case)
             else:
-                case, ops, outs, w = gen_case(ctx.rng, ctx.rng.randint(8, maxops), with_run=True)
+                i = k - ncorpus
+                family = ("many-purges" if i % 40 == 3 else "long-loss" if i % 100 == 7 else
+                          "big-values" if i % 70 == 11 else None)
+                nops = ctx.rng.randint(6, 10) if family == "big-values" else ctx.rng.randint(8, maxops)
+                case, ops, outs, w = gen_case(ctx.rng, nops, with_run=True, family=family)
             w.drained = True
         except Exception as e:
             ctx.disagree("harness", {"case": case}, "real side runs", f"{type(e).__name__}: {e}")
@@ -904,19 +1250,32 @@ def correspond(ctx):
         if k in expects:
             # the witness of a `_full_fails` theorem, replayed on the real code
             name, exp = expects[k]
+            ofails = oracle(case, w) if "purge_no_wait" in exp else []
             got_ = {"purge_dropped": any(o["kind"] == "purge-to-executor" and not o["known"] and [o["h"], o["ds"]] == exp.get("purge_dropped")
                                          and not any(x["kind"] == "purge-forwarded" and x["op"] == o["op"] for x in w.observations)
                                          for o in w.observations),
                     "stored": any(o["kind"] == "stored" and o["op"] > 0 and [o["h"], w.key2ds.get(o["key"])] == exp.get("stored")
-                                  for o in w.observations)}
+                                  for o in w.observations),
+                    "purge_no_wait": any(f[0] == "purge-no-wait" for f in ofails) and
+                                     any(o["kind"] == "shm-purge" and [o["h"], w.key2ds.get(o["key"])] == exp.get("purge_no_wait")
+                                         and any(x == w.key2ds.get(o["key"]) for x in o["pool_pending"]) for o in w.observations)}
             ok = all(got_[key] for key in exp)
             ctx.count("witness:%s:%s" % (name, "reproduced" if ok else "NOT-reproduced"))
             if not ok:
-                ctx.disagree("witness:" + str(name), {"case": case}, exp, got_)
+                ctx.disagree("witness:" + str(name), {"case": case}, exp, {key: got_[key] for key in exp})
+            if case.get("force_wait_timeout") is not None:
+                # a counterfactual (the wait of the purge arm given a timeout from outside): what the oracle says about
+                # it is the expectation above, and the model (which has the source's call) is not compared
+                ctx.case({"n": case["n"], "stores": case["stores"], "ops": case["ops"][:10], "n_ops": len(case["ops"]),
+                          "force_wait_timeout": case["force_wait_timeout"]}, nontrivial=True)
+                continue
         kinds = _stats(ctx, case, ops, w)
         nontrivial = bool(kinds.get("cmd")) and bool(kinds.get("dropped") or kinds.get("shm-purge") or any(
             o["kind"] == "fed" and o["dup"] for o in w.observations))
-        ctx.case({"n": case["n"], "stores": case["stores"], "ops": case["ops"][:10], "n_ops": len(case["ops"])}, nontrivial=nontrivial)
+        ctx.case({"n": case["n"], "stores": [[e[0], e[1], e[2] if len(e[2]) <= 16 else e[2][:16] + "...(%d bytes)" % (len(e[2]) // 2), e[3]]
+                                             for e in case["stores"][:12]],
+                  "n_datasets": len({e[1] for e in case["stores"]}),
+                  "ops": case["ops"][:10], "n_ops": len(case["ops"])}, nontrivial=nontrivial)
         fails = oracle(case, w)
         seen = set()
         for kind, what in fails:
@@ -931,7 +1290,8 @@ def correspond(ctx):
             _, _, w2 = run_case(small)
             f2 = [f for f in oracle(small, w2) if f[0] == kind]
             ctx.violation({"kind": kind}, small, f2[0][1] if f2 else what)
-        runs.append((case, ops, outs))
+        if compare:
+            runs.append((case, ops, outs))
         if len(runs) >= 250:
             _compare(ctx, runs)
             runs = []
